@@ -230,6 +230,24 @@ let process line =
                    df (Printf.sprintf "sample #%d p=%s impl=%s model=%s" i p sv ms_txt);
                  if sv = "P" && in_scope then pf (Printf.sprintf "sample-panic #%d p=%s" i p)
              | _ -> df "sample: bad observation") (split ',' (oget "sm"));
+         (* scale / unscale called directly (absent in old replay files: skipped) *)
+         let sk_obs = split ',' (oget "sk") in
+         if sk_obs <> [] then begin
+           if List.length sk_obs <> List.length pr_bits then df "scale: observation count"
+           else List.iteri (fun i (sb, o) ->
+               let mt = (match f64_scale d (f64_of_f32bits sb) with
+                   | Ok z -> string_of_int (int_of_z z) | Panic _ -> "P" | _ -> "E") in
+               if o <> mt then df (Printf.sprintf "scale probe#%d score=%s impl=%s model=%s" i (show_u64 sb) o mt))
+               (List.combine pr_bits sk_obs)
+         end;
+         List.iter (fun o ->
+             match String.split_on_char ':' o with
+             | [i; v] ->
+                 let mt = (match f64_unscale_m d (z_of_int (int_of_string i)) with
+                     | Ok x -> show_u64 (canon32 (f32bits_of_f64 x)) | Panic _ -> "P" | _ -> "E") in
+                 let vc = if v = "P" then "P" else show_u64 (canon32 (u64_of_string v)) in
+                 if vc <> mt then df (Printf.sprintf "unscale index=%s impl=%s model=%s" i v mt)
+             | _ -> df "unscale: bad observation") (split ',' (oget "us"));
          lap "scores";
          (* ---------- the property, decided by the extracted checker ---------- *)
          let pvl = List.rev !pv_list and brl = List.rev !br_list and rtl = List.rev !rt_list in
